@@ -190,6 +190,11 @@ Section C17_gd.
   Theorem C17_gd_enclosure_sound : forall p ref comp, ref <> [] -> comp <> [] ->
     Q2R (fst (gd_enclosure p ref comp)) <= gd (embed ref) (embed comp) <= Q2R (snd (gd_enclosure p ref comp)).
   Proof. exact gd_enclosure_sound. Qed.
+
+  (* the same for the enclosure whose partial sums are kept in lowest terms (what the correspondence evaluates) *)
+  Theorem C17_gd_enclosure_red_sound : forall p ref comp, ref <> [] -> comp <> [] ->
+    Q2R (fst (gd_enclosure_red p ref comp)) <= gd (embed ref) (embed comp) <= Q2R (snd (gd_enclosure_red p ref comp)).
+  Proof. exact gd_enclosure_red_sound. Qed.
 End C17_gd.
 
 Print Assumptions C17_population_is_filter.
@@ -213,6 +218,7 @@ Print Assumptions C17_eps_add_shift.
 Print Assumptions C17_gd_mean_min_distance.
 Print Assumptions C17_gd_zero_iff_subset.
 Print Assumptions C17_gd_enclosure_sound.
+Print Assumptions C17_gd_enclosure_red_sound.
 
 (* ------------------------------------------------------------------ *)
 (* non-vacuity: concrete non-trivial inputs *)
